@@ -92,6 +92,23 @@ def ill_typed(ctx, r, node):
             ctx.violation({"what": "ill-typed-call-crashes", "backend": nm, "fn": fn, "exc": type(e).__name__}, {"case": r, "exc": str(e)[:200]})
             continue
         ctx.violation({"what": "backend-accepts-ill-typed", "backend": nm, "fn": fn}, {"case": r, "output": str(out)[:300]})
+    for nm, mk in ORM_VISITORS:
+        if nm in r.get("exempt", []):
+            continue
+        ctx.traces += 1
+        try:
+            out = mk().visit(wrapped)
+        except ex.ODataException:
+            continue
+        except NotImplementedError as e:
+            if nm == "sa-core":          # the documented refusal of paths by the Core visitor
+                continue
+            ctx.violation({"what": "ill-typed-call-crashes", "backend": nm, "fn": fn, "exc": "NotImplementedError"}, {"case": r, "exc": str(e)[:200]})
+            continue
+        except Exception as e:  # noqa
+            ctx.violation({"what": "ill-typed-call-crashes", "backend": nm, "fn": fn, "exc": type(e).__name__}, {"case": r, "exc": str(e)[:200]})
+            continue
+        ctx.violation({"what": "backend-accepts-ill-typed", "backend": nm, "fn": fn}, {"case": r, "output": str(out)[:300]})
     ctx.nontriv(r["tree"])
 
 
